@@ -17,7 +17,8 @@ fn rand_desc(r: &mut Rng, lat: &[u64]) -> Descriptor {
     let dpl = r.below(4) << 45;
     let lo = (any64(r, lat) & !(3u64 << 45)) | dpl;
     if r.chance(1, 3) {
-        Descriptor::SystemSegment(lo, any64(r, lat))
+        // upper halves that are zero (a TSS/LDT below 4 GiB) take their slot like any other
+        Descriptor::SystemSegment(lo, if r.chance(1, 4) { 0 } else { any64(r, lat) })
     } else {
         Descriptor::UserSegment(lo)
     }
